@@ -19,7 +19,7 @@ type PhoutConfig struct {
 	Destination     string                    // Destination file name
 	ID              bool                      // Print ammo ids if true.
 	FlushTime       time.Duration             `config:"flush-time"`
-	SampleQueueSize int                       `config:"sample-queue-size"`
+	SampleQueueSize int                       `config:"sample-queue-size" validate:"min=0"`
 	Buffer          coreutil.BufferSizeConfig `config:",squash"`
 }
 
